@@ -1099,4 +1099,329 @@ theorem total_power (x : List ℝ) :
   exact this
 
 end real
+/-! ## Parseval for the windowed spectrum -/
+
+section real
+open RealLike
+
+/-- the one-sided fold of a sequence of `npw` two-sided bins -/
+noncomputable def oneSided (S : ℕ → ℝ) (npw : ℕ) : ℝ :=
+  S 0 + 2 * ∑ k ∈ Finset.range ((npw - 1) / 2), S (k + 1) + if npw % 2 = 0 then S (npw / 2) else 0
+
+theorem oneSided_add (S T : ℕ → ℝ) (npw : ℕ) :
+    oneSided (fun k => S k + T k) npw = oneSided S npw + oneSided T npw := by
+  unfold oneSided
+  rw [Finset.sum_add_distrib]
+  split <;> ring
+
+theorem oneSided_zero (npw : ℕ) : oneSided (fun _ => 0) npw = 0 := by
+  unfold oneSided; simp
+
+/-- one window: the one-sided fold of its squared DFT is `N·Σ w²` -/
+theorem oneSided_window (w : List ℝ) (npw : ℕ) (hn : 0 < npw) (hl : w.length = npw) :
+    oneSided (fun k => dftSq w k) npw = (npw : ℝ) * (w.map fun v => v * v).sum := by
+  have hsym : ∀ k, 0 < k → k < npw → dftSq w (npw - k) = dftSq w k := by
+    intro k _ hk
+    have := dftSq_reflect w k (by omega)
+    rwa [hl] at this
+  have hpl := plancherel w
+  rw [← list_sum_eq_finset w (fun v => v * v), hl] at hpl
+  rw [← hpl]
+  unfold oneSided
+  rcases Nat.even_or_odd' npw with ⟨h, hh | hh⟩
+  · obtain ⟨h', rfl⟩ : ∃ h', h = h' + 1 := ⟨h - 1, by omega⟩
+    have hN2 : npw = 2 * h' + 2 := by omega
+    subst hN2
+    have hfold := fold_even (fun k => dftSq w k) h' (by
+      intro k hk1 hk2
+      exact hsym k hk1 hk2)
+    have e1 : (2 * h' + 2 - 1) / 2 = h' := by omega
+    have e2 : (2 * h' + 2) % 2 = 0 := by omega
+    have e3 : (2 * h' + 2) / 2 = h' + 1 := by omega
+    rw [e1, if_pos e2, e3, hfold]
+  · subst hh
+    have hfold := fold_odd (fun k => dftSq w k) h (by
+      intro k hk1 hk2
+      exact hsym k hk1 hk2)
+    have e1 : (2 * h + 1 - 1) / 2 = h := by omega
+    have e2 : ¬ (2 * h + 1) % 2 = 0 := by omega
+    rw [e1, if_neg e2, hfold]; ring
+
+theorem oneSided_windows (W : List (List ℝ)) (npw : ℕ) (hn : 0 < npw) (hW : ∀ w ∈ W, w.length = npw) :
+    oneSided (fun k => (W.map fun w => dftSq w k).sum) npw
+      = (npw : ℝ) * (W.map fun w => (w.map fun v => v * v).sum).sum := by
+  induction W with
+  | nil => simp [oneSided_zero]
+  | cons w W ih =>
+    simp only [List.map_cons, List.sum_cons]
+    rw [oneSided_add (fun k => dftSq w k) (fun k => (W.map fun w => dftSq w k).sum), ih (fun v hv => hW v (List.mem_cons_of_mem _ hv)),
+      oneSided_window w npw hn (hW w List.mem_cons_self)]
+    ring
+
+/-- the windows tile the first `⌊n/npw⌋·npw` samples -/
+theorem sum_chunks_aux {β} (l : List β) (f : β → ℝ) (npw : ℕ) : ∀ c, 
+    ((List.range c).map fun i => (((l.drop (i * npw)).take npw).map f).sum).sum = ((l.take (c * npw)).map f).sum := by
+  intro c
+  induction c with
+  | zero => simp
+  | succ c ih =>
+    rw [List.range_succ, List.map_append, List.sum_append, ih]
+    simp only [List.map_cons, List.map_nil, List.sum_cons, List.sum_nil, add_zero]
+    rw [show (c + 1) * npw = c * npw + npw by ring, List.take_add, List.map_append, List.sum_append]
+
+theorem sum_chunks {β} (l : List β) (f : β → ℝ) (npw : ℕ) :
+    ((chunks l npw).map fun w => (w.map f).sum).sum = ((l.take (l.length / npw * npw)).map f).sum := by
+  unfold chunks
+  rw [List.map_map]
+  exact sum_chunks_aux l f npw _
+
+/-- bin `k ≤ N_w/2` of the windowed spectrum -/
+theorem psdPower_bin (fs : ℝ) (x : List ℝ) (npw k : ℕ) (hk : k ≤ npw / 2) :
+    (psdPower x fs npw).getD k 0 =
+      scaling fs npw * (((chunks (demean x) npw).map fun w => dftSq w k).sum / ((x.length / npw : ℕ) : ℝ)) := by
+  have hL : (((chunks (demean x) npw).map rfftSq).map fun r => r.getD k (0.0 : ℝ))
+      = (chunks (demean x) npw).map fun w => dftSq w k := by
+    rw [List.map_map]
+    apply List.map_congr_left
+    intro w hw
+    have hl := mem_chunks_length _ npw w hw
+    simp only [Function.comp]
+    unfold rfftSq
+    rw [hl, getD_map_range _ _ _ _ (by omega)]
+  rw [psdPower_def]
+  unfold meanRows
+  rw [List.map_map, getD_map_range _ _ _ _ (by omega)]
+  simp only [Function.comp]
+  have hlen : (chunks (demean x) npw).length = x.length / npw := by
+    rw [chunks_length]; simp [demean]
+  rw [hL, ofNat'_real, List.length_map, hlen, rsum_real]
+
+
+/-- mean square deviation, from the mean of the WHOLE signal, of the samples the windows use (`np.mean((x[:tsu] - x.mean())**2)`);
+    written without reference to the model -/
+noncomputable def usedMeanSq (x : List ℝ) (npw : ℕ) : ℝ :=
+  ((x.take (x.length / npw * npw)).map fun v => (v - x.sum / x.length) * (v - x.sum / x.length)).sum
+    / ((x.length / npw * npw : ℕ) : ℝ)
+
+theorem usedMeanSq_of_dvd (x : List ℝ) (npw : ℕ) (hd : npw ∣ x.length) : usedMeanSq x npw = variance x := by
+  unfold usedMeanSq variance
+  rw [Nat.div_mul_cancel hd, List.take_length]
+
+end real
+/-! ## block averaging twice; block means stay within the bounds of the data; `fitInit` -/
+
+theorem sum_range_mul (g : Nat → Rat) (b : Nat) : ∀ a,
+    ((List.range (a * b)).map g).sum = ((List.range a).map fun j => ((List.range b).map fun m => g (j * b + m)).sum).sum := by
+  intro a
+  induction a with
+  | zero => simp
+  | succ a ih =>
+    rw [show (a + 1) * b = a * b + b by ring, List.range_add, List.map_append, List.sum_append, ih,
+      List.range_succ, List.map_append, List.sum_append]
+    simp [List.map_map, Function.comp_def]
+
+theorem sum_map_div (l : List Nat) (g : Nat → Rat) (c : Rat) :
+    (l.map fun j => g j / c).sum = (l.map g).sum / c := by
+  induction l with
+  | nil => simp
+  | cons x xs ih => simp only [List.map_cons, List.sum_cons, ih]; ring
+
+theorem getD_downsampleMean (k : Nat) (hk : 0 < k) (l : List Rat) (i : Nat) (hi : i < l.length / k) :
+    (downsampleMean k l).getD i 0 = ((List.range k).map fun j => l.getD (i * k + j) 0).sum / (k : Rat) := by
+  rw [List.getD_eq_getElem?_getD, List.getElem?_eq_getElem (by rw [downsampleMean_length k hk]; exact hi),
+    Option.getD_some, downsampleMean_getElem k hk l i hi]
+
+/-- block averaging twice = block averaging once by the product -/
+theorem downsampleMean_twice (k₁ k₂ : Nat) (h₁ : 0 < k₁) (h₂ : 0 < k₂) (l : List Rat) :
+    downsampleMean k₂ (downsampleMean k₁ l) = downsampleMean (k₁ * k₂) l := by
+  have h12 : 0 < k₁ * k₂ := Nat.mul_pos h₁ h₂
+  apply List.ext_getElem
+  · rw [downsampleMean_length k₂ h₂, downsampleMean_length k₁ h₁, downsampleMean_length _ h12, Nat.div_div_eq_div_mul]
+  · intro i hi1 hi2
+    rw [downsampleMean_length _ h12] at hi2
+    have hi1' : i < (downsampleMean k₁ l).length / k₂ := by rwa [downsampleMean_length k₂ h₂] at hi1
+    rw [downsampleMean_getElem k₂ h₂ _ i hi1', downsampleMean_getElem _ h12 l i hi2]
+    have hin : ∀ j ∈ List.range k₂, (downsampleMean k₁ l).getD (i * k₂ + j) 0
+        = ((List.range k₁).map fun m => l.getD (i * (k₁ * k₂) + (j * k₁ + m)) 0).sum / (k₁ : Rat) := by
+      intro j hj
+      have hj := List.mem_range.mp hj
+      rw [downsampleMean_length k₁ h₁] at hi1'
+      have : i * k₂ + j < l.length / k₁ := by
+        calc i * k₂ + j < (i + 1) * k₂ := by nlinarith
+          _ ≤ l.length / k₁ / k₂ * k₂ := Nat.mul_le_mul_right _ hi1'
+          _ ≤ l.length / k₁ := Nat.div_mul_le_self _ _
+      rw [getD_downsampleMean k₁ h₁ l _ this]
+      congr 2
+      apply List.map_congr_left
+      intro m _
+      congr 1; ring
+    rw [List.map_congr_left hin, sum_map_div, Nat.mul_comm k₁ k₂,
+      sum_range_mul (fun t => l.getD (i * (k₂ * k₁) + t) 0) k₁ k₂]
+    have hk1 : (k₁ : Rat) ≠ 0 := by exact_mod_cast (by omega : k₁ ≠ 0)
+    have hk2 : (k₂ : Rat) ≠ 0 := by exact_mod_cast (by omega : k₂ ≠ 0)
+    push_cast
+    field_simp
+
+/-! block means stay inside the bounds of the data -/
+
+theorem sum_range_le (g : Nat → Rat) (hi : Rat) : ∀ k, (∀ j, j < k → g j ≤ hi) →
+    ((List.range k).map g).sum ≤ (k : Rat) * hi := by
+  intro k
+  induction k with
+  | zero => intro _; simp
+  | succ k ih =>
+    intro h
+    rw [List.range_succ, List.map_append, List.sum_append]
+    have := ih (fun j hj => h j (by omega))
+    have := h k (by omega)
+    simp only [List.map_cons, List.map_nil, List.sum_cons, List.sum_nil]
+    push_cast
+    linarith
+
+theorem sum_range_ge (g : Nat → Rat) (lo : Rat) : ∀ k, (∀ j, j < k → lo ≤ g j) →
+    (k : Rat) * lo ≤ ((List.range k).map g).sum := by
+  intro k
+  induction k with
+  | zero => intro _; simp
+  | succ k ih =>
+    intro h
+    rw [List.range_succ, List.map_append, List.sum_append]
+    have := ih (fun j hj => h j (by omega))
+    have := h k (by omega)
+    simp only [List.map_cons, List.map_nil, List.sum_cons, List.sum_nil]
+    push_cast
+    linarith
+
+theorem sum_range_gt (g : Nat → Rat) (lo : Rat) : ∀ k, 0 < k → (∀ j, j < k → lo < g j) →
+    (k : Rat) * lo < ((List.range k).map g).sum := by
+  intro k
+  induction k with
+  | zero => intro h; omega
+  | succ k ih =>
+    intro _ h
+    rw [List.range_succ, List.map_append, List.sum_append]
+    have h1 := sum_range_ge g lo k (fun j hj => le_of_lt (h j (by omega)))
+    have := h k (by omega)
+    simp only [List.map_cons, List.map_nil, List.sum_cons, List.sum_nil]
+    push_cast
+    linarith
+
+/-- every output of `downsample(·, k, mean)` is the mean of `k` members of the input -/
+theorem mem_downsampleMean (k : Nat) (hk : 0 < k) (l : List Rat) (y : Rat) (hy : y ∈ downsampleMean k l) :
+    ∃ g : Nat → Rat, (∀ j, j < k → g j ∈ l) ∧ y = ((List.range k).map g).sum / (k : Rat) := by
+  obtain ⟨i, hi, rfl⟩ := List.getElem_of_mem hy
+  have hi' : i < l.length / k := by rwa [downsampleMean_length k hk] at hi
+  refine ⟨fun j => l.getD (i * k + j) 0, ?_, downsampleMean_getElem k hk l i hi'⟩
+  intro j hj
+  have : i * k + j < l.length := by
+    calc i * k + j < (i + 1) * k := by nlinarith
+      _ ≤ l.length / k * k := Nat.mul_le_mul_right _ hi'
+      _ ≤ l.length := Nat.div_mul_le_self _ _
+  show l.getD (i * k + j) 0 ∈ l
+  rw [List.getD_eq_getElem?_getD, List.getElem?_eq_getElem this]
+  exact List.getElem_mem this
+
+theorem downsampleMean_bounds (k : Nat) (hk : 0 < k) (l : List Rat) (lo hi : Rat) :
+    ((∀ x ∈ l, lo ≤ x) → ∀ y ∈ downsampleMean k l, lo ≤ y) ∧
+    ((∀ x ∈ l, lo < x) → ∀ y ∈ downsampleMean k l, lo < y) ∧
+    ((∀ x ∈ l, x ≤ hi) → ∀ y ∈ downsampleMean k l, y ≤ hi) := by
+  have hkR : (0 : Rat) < (k : Rat) := by exact_mod_cast hk
+  refine ⟨?_, ?_, ?_⟩
+  · intro h y hy
+    obtain ⟨g, hg, rfl⟩ := mem_downsampleMean k hk l y hy
+    rw [le_div_iff₀ hkR]
+    have := sum_range_ge g lo k (fun j hj => h _ (hg j hj))
+    linarith
+  · intro h y hy
+    obtain ⟨g, hg, rfl⟩ := mem_downsampleMean k hk l y hy
+    rw [lt_div_iff₀ hkR]
+    have := sum_range_gt g lo k hk (fun j hj => h _ (hg j hj))
+    linarith
+  · intro h y hy
+    obtain ⟨g, hg, rfl⟩ := mem_downsampleMean k hk l y hy
+    rw [div_le_iff₀ hkR]
+    have := sum_range_le g hi k (fun j hj => h _ (hg j hj))
+    linarith
+
+/-! `fitInit` -/
+section order
+variable {α : Type} [LinearOrder α]
+
+theorem foldl_min_spec (xs : List α) : ∀ m : α,
+    (xs.foldl (fun m y => if y < m then y else m) m ≤ m) ∧
+    (∀ x ∈ xs, xs.foldl (fun m y => if y < m then y else m) m ≤ x) ∧
+    (xs.foldl (fun m y => if y < m then y else m) m = m ∨ xs.foldl (fun m y => if y < m then y else m) m ∈ xs) := by
+  induction xs with
+  | nil => intro m; simp
+  | cons y ys ih =>
+    intro m
+    simp only [List.foldl_cons]
+    obtain ⟨h1, h2, h3⟩ := ih (if y < m then y else m)
+    have hle : (if y < m then y else m) ≤ m := by split <;> [exact le_of_lt ‹_›; exact le_refl _]
+    have hley : (if y < m then y else m) ≤ y := by split <;> [exact le_refl _; exact not_lt.mp ‹_›]
+    refine ⟨le_trans h1 hle, ?_, ?_⟩
+    · intro x hx
+      rcases List.mem_cons.mp hx with rfl | hx
+      · exact le_trans h1 hley
+      · exact h2 x hx
+    · rcases h3 with h3 | h3
+      · rw [h3]
+        by_cases hym : y < m
+        · rw [if_pos hym]; right; exact List.mem_cons_self
+        · rw [if_neg hym]; left; rfl
+      · right; exact List.mem_cons_of_mem _ h3
+
+theorem foldl_max_spec (xs : List α) : ∀ m : α,
+    (m ≤ xs.foldl (fun m y => if m < y then y else m) m) ∧
+    (∀ x ∈ xs, x ≤ xs.foldl (fun m y => if m < y then y else m) m) ∧
+    (xs.foldl (fun m y => if m < y then y else m) m = m ∨ xs.foldl (fun m y => if m < y then y else m) m ∈ xs) := by
+  induction xs with
+  | nil => intro m; simp
+  | cons y ys ih =>
+    intro m
+    simp only [List.foldl_cons]
+    obtain ⟨h1, h2, h3⟩ := ih (if m < y then y else m)
+    have hle : m ≤ (if m < y then y else m) := by split <;> [exact le_of_lt ‹_›; exact le_refl _]
+    have hley : y ≤ (if m < y then y else m) := by split <;> [exact le_refl _; exact not_lt.mp ‹_›]
+    refine ⟨le_trans hle h1, ?_, ?_⟩
+    · intro x hx
+      rcases List.mem_cons.mp hx with rfl | hx
+      · exact le_trans hley h1
+      · exact h2 x hx
+    · rcases h3 with h3 | h3
+      · rw [h3]
+        by_cases hym : m < y
+        · rw [if_pos hym]; right; exact List.mem_cons_self
+        · rw [if_neg hym]; left; rfl
+      · right; exact List.mem_cons_of_mem _ h3
+
+/-- `fitInit` returns the least and the greatest element -/
+theorem fitInit_spec (f : List α) (lo hi : α) (h : fitInit f = some (lo, hi)) :
+    lo ∈ f ∧ hi ∈ f ∧ ∀ x ∈ f, lo ≤ x ∧ x ≤ hi := by
+  cases f with
+  | nil => simp [fitInit] at h
+  | cons x xs =>
+    simp only [fitInit, Option.some.injEq, Prod.mk.injEq] at h
+    obtain ⟨rfl, rfl⟩ := h
+    obtain ⟨a1, a2, a3⟩ := foldl_min_spec xs x
+    obtain ⟨b1, b2, b3⟩ := foldl_max_spec xs x
+    refine ⟨?_, ?_, ?_⟩
+    · rcases a3 with a3 | a3
+      · rw [a3]; exact List.mem_cons_self
+      · exact List.mem_cons_of_mem _ a3
+    · rcases b3 with b3 | b3
+      · rw [b3]; exact List.mem_cons_self
+      · exact List.mem_cons_of_mem _ b3
+    · intro y hy
+      rcases List.mem_cons.mp hy with rfl | hy
+      · exact ⟨a1, b1⟩
+      · exact ⟨a2 y hy, b2 y hy⟩
+
+theorem fitInit_isSome (f : List α) (h : f ≠ []) : ∃ lo hi, fitInit f = some (lo, hi) := by
+  cases f with
+  | nil => exact absurd rfl h
+  | cons x xs => exact ⟨_, _, rfl⟩
+
+end order
+
 end Verif.C10
